@@ -56,6 +56,8 @@ fn mk_frame(kind: Kind, tap: bool, r: &mut Rng, from: usize, dest: usize, n: usi
         let d = if dest < n { mac(dest) } else if dest == n { [2, 0, 0, 0, 9, 9] } else { [0xff; 6] };
         f = d.to_vec();
         f.extend_from_slice(&mac(from));
+        // every third frame is PRIORITY-tagged (802.1Q tag with VLAN id 0 and a random PCP / DEI nibble): it counts as untagged
+        if r.below(3) == 0 { f.extend_from_slice(&[0x81, 0x00, (r.below(16) as u8) << 4, 0x00]); }
         f.extend_from_slice(&[0x08, 0x00]);
     }
     // 24 distinctive payload bytes, then filler of random length
@@ -65,16 +67,19 @@ fn mk_frame(kind: Kind, tap: bool, r: &mut Rng, from: usize, dest: usize, n: usi
     f
 }
 
-fn mesh(mode: Mode, tap: bool, n: usize, steps: usize, seed: u64, failing: &mut usize) {
+fn mesh(mode: Mode, tap: bool, plain: bool, n: usize, steps: usize, seed: u64, failing: &mut usize) {
     let kind = behaviour(mode, tap);
     let mut r = Rng(seed);
     macro_rules! body { ($sim:ident) => {{
+        let mut configs: Vec<Config> = vec![];
         let addrs: Vec<SocketAddr> = (0..n).map(|j| {
             let mut c = Config::default();
             c.device_type = if tap { Type::Tap } else { Type::Tun };
             c.mode = mode;
             c.auto_claim = false;
+            if plain { c.crypto.algorithms = vec!["plain".to_string()]; }
             if kind == Kind::Router { c.claims = vec![if tap { format!("02:00:00:00:00:{:02x}/48", j + 1) } else { format!("10.0.{}.0/24", j) }]; }
+            configs.push(c.clone());
             $sim.add_node(false, &c)
         }).collect();
         // the first handshake datagram (ping) of every dialling node is recorded, as an observer on the wire can
@@ -85,7 +90,7 @@ fn mesh(mode: Mode, tap: bool, n: usize, steps: usize, seed: u64, failing: &mut 
         for a in &addrs { while $sim.pop_payload(*a).is_some() {} }
         // who is selected: C10 always; the learned next hop and the mode table are C13's, the claimed next hop is C11's
         let sel_tags = match kind { Kind::Switch => "C10,C13", Kind::Hub => "C10,C13", Kind::Router => "C10,C11,C13" };
-        let what = format!("mode `{}` on a {} device (documented behaviour: {:?}), mesh of {} nodes", mode, if tap { "tap" } else { "tun" }, kind, n);
+        let what = format!("mode `{}` on a {} device (documented behaviour: {:?}), {}mesh of {} nodes", mode, if tap { "tap" } else { "tun" }, kind, if plain { "PLAIN (everybody allows unencrypted) " } else { "" }, n);
         // reference model (switch): learned[i][source node] = peer it was last heard from
         let mut learned: Vec<Vec<Option<usize>>> = vec![vec![None; n]; n];
         let mut captured: Vec<(SocketAddr, SocketAddr, Vec<u8>)> = vec![];
@@ -110,7 +115,7 @@ fn mesh(mode: Mode, tap: bool, n: usize, steps: usize, seed: u64, failing: &mut 
                 return;
             }
             for m in &sent {
-                if contains(&m.2, &frame[frame.len().min(20)..frame.len().min(20) + 16]) { fail("C02", failing, format!("{}: the cleartext of the frame appears on the wire ({}-byte datagram) although plain mode is off", desc, m.2.len())); return; }
+                if !plain && contains(&m.2, &frame[frame.len().min(20)..frame.len().min(20) + 16]) { fail("C02", failing, format!("{}: the cleartext of the frame appears on the wire ({}-byte datagram) although plain mode is off", desc, m.2.len())); return; }
                 if captured.len() < 64 { captured.push(m.clone()); }
             }
             // deliver one by one: exactly one interface write, byte-identical, and NO datagram in consequence
@@ -131,7 +136,7 @@ fn mesh(mode: Mode, tap: bool, n: usize, steps: usize, seed: u64, failing: &mut 
                 if want == 1 && got[0] != frame { fail("C02,C10", failing, format!("{}: node {} writes a frame that differs from what node {} read ({} vs {} bytes)", desc, j, from, got[0].len(), frame.len())); return; }
                 if want == 1 && kind == Kind::Switch { learned[j][from] = Some(from); }
             }
-            if step % 10 == 9 && !captured.is_empty() {
+            if !plain && step % 10 == 9 && !captured.is_empty() {
                 let (csrc, cdst, cdata) = captured[r.below(captured.len() as u64) as usize].clone();
                 let stranger: SocketAddr = "[::]:999".parse().unwrap();
                 let third = addrs.iter().copied().find(|a| *a != csrc && *a != cdst);
@@ -163,6 +168,38 @@ fn mesh(mode: Mode, tap: bool, n: usize, steps: usize, seed: u64, failing: &mut 
                 }
             }
         }
+        // a node RESTARTS (new node object, same address and configuration) and reconnects: a datagram sealed for the PREVIOUS connection
+        // is not delivered any more, and what the restarted node sends is delivered ("sealed for a different connection is dropped")
+        if !plain && n >= 2 {
+            if let Some(old) = captured.iter().find(|m| m.0 == addrs[1] && m.1 == addrs[0]).cloned() {
+                for t in 1..=80 { $sim.set_time(t); $sim.trigger_housekeep(); $sim.simulate_all_messages(); }
+                for a in &addrs { while $sim.pop_payload(*a).is_some() {} }
+                {
+                    let mut c = configs[1].clone();
+                    MockSocket::set_nat(false);
+                    c.listen = format!("[::]:{}", addrs[1].port());
+                    if c.crypto.password.is_none() && c.crypto.private_key.is_none() { c.crypto.password = Some("test123".to_string()); }
+                    let node = TestNode::new(&c, MockSocket::new(addrs[1]), MockDevice::new(), None, None);
+                    $sim.nodes.insert(addrs[1], node);
+                    $sim.messages.clear();
+                }
+                $sim.connect(addrs[1], addrs[0]);
+                $sim.simulate_all_messages();
+                if !$sim.is_connected(addrs[0], addrs[1]) || !$sim.is_connected(addrs[1], addrs[0]) { fail("C02,C15", failing, format!("{}: node 1 restarts and dials node 0 again: they do not reconnect", what)); return; }
+                for a in &addrs { while $sim.pop_payload(*a).is_some() {} }
+                $sim.messages.clear();
+                $sim.messages.push_back(old.clone());
+                $sim.simulate_all_messages();
+                if let Some(p) = $sim.pop_payload(addrs[0]) { fail("C02", failing, format!("{}: after node 1 restarted and re-handshook, a datagram sealed for the PREVIOUS connection makes node 0 write {} bytes to its interface", what, p.len())); return; }
+                let frame = mk_frame(kind, tap, &mut r, 1, 0, n, 0xAF7E_4);
+                $sim.messages.clear();
+                $sim.put_payload(addrs[1], frame.clone());
+                $sim.simulate_all_messages();
+                let got = $sim.pop_payload(addrs[0]);
+                if got.as_ref() != Some(&frame) { fail("C02,C10", failing, format!("{}: after node 1 restarted and re-handshook, a frame it reads for node 0 is not delivered byte-identical to node 0 (got {:?} bytes)", what, got.map(|g| g.len()))); return; }
+                $sim.set_time(0);
+            }
+        }
     }}; }
     if !tap { let mut sim = TunSimulator::new(); body!(sim); } else { let mut sim = TapSimulator::new(); body!(sim); }
 }
@@ -173,8 +210,10 @@ fn frames_go_exactly_to_the_selected_peers_once_and_are_never_relayed() {
     for (mi, mode) in [Mode::Normal, Mode::Hub, Mode::Switch, Mode::Router].iter().enumerate() {
         for &tap in [true, false].iter() {
             for n in 2..=4usize {
-                mesh(*mode, tap, n, 200, 0x1234_5678 + n as u64 * 77 + mi as u64 * 13 + tap as u64, &mut failing);
+                mesh(*mode, tap, false, n, 200, 0x1234_5678 + n as u64 * 77 + mi as u64 * 13 + tap as u64, &mut failing);
             }
+            // the same with unencrypted sessions (everybody allows plain): selection and conservation do not depend on the cipher
+            mesh(*mode, tap, true, 3, 120, 0x0bad_cafe + mi as u64 * 13 + tap as u64, &mut failing);
         }
     }
     assert_eq!(failing, 0);
